@@ -185,7 +185,7 @@ def laneEnc : List String → String
     | _, _, _, _, _ => "bad-op"
   | ["zframe", "skip", nib, payload] =>
     match nib.toNat?, decodeHex payload with
-    | some n, some p => encodeHex ((Req.Compress.Zstd.Frame.skippable (UInt8.ofNat n) p).bytes Req.Compress.Zstd.xxh)
+    | some n, some p => encodeHex ((Req.Compress.Zstd.Frame.skippable (0x50 ||| (UInt8.ofNat n &&& 15)) p).bytes Req.Compress.Zstd.xxh)
     | _, _ => "bad-op"
   | _ => "bad-op"
 
